@@ -605,6 +605,42 @@ def _is_raw_line(fi: FuncInfo, arg: ast.AST | None) -> bool:
     return bool(binds) and all(binds)
 
 
+def check_zone_construction(run: Run, rule: str = "R05.10") -> None:
+    """what goes into a LiteralZoneValue is what the tokens carried"""
+    run.rule(rule, "a literal zone is built from its tokens unchanged: in Parser.parse_literal_zone every local that flows into LiteralZoneValue(content=, info_tag=, fence_marker=) is bound only from token values / the fence record, None, or - for the info tag - .strip() of itself; no split / join / replace / re.sub / normalize / case / expandtabs / dedent call touches them (collapsing blanks inside an info string, trimming content lines)", 3)
+    pm = run.project.mod("core.parser")
+    fi = pm.func("Parser.parse_literal_zone")
+    ctor = [c for c in walk_no_nested(fi.node) if isinstance(c, ast.Call) and isinstance(c.func, ast.Name) and c.func.id == "LiteralZoneValue"]
+    if not ctor:
+        raise AnalysisError("Parser.parse_literal_zone: LiteralZoneValue(...) construction not found")
+    REWRITE = {"split", "rsplit", "join", "replace", "sub", "subn", "normalize", "lower", "upper", "title", "casefold", "expandtabs", "dedent", "indent", "translate", "splitlines", "lstrip", "rstrip", "removeprefix", "removesuffix", "encode", "decode", "format"}
+    for c in ctor:
+        for k in c.keywords:
+            if k.arg not in ("content", "info_tag", "fence_marker"):
+                continue
+            # all definitions of the locals the argument reads, transitively (3 levels)
+            seen: set[str] = set()
+            frontier = {x.id for x in ast.walk(k.value) if isinstance(x, ast.Name)}
+            exprs: list[ast.AST] = [k.value]
+            for _ in range(3):
+                nxt: set[str] = set()
+                for nm in frontier - seen:
+                    seen.add(nm)
+                    for a in walk_no_nested(fi.node):
+                        if isinstance(a, (ast.Assign, ast.AugAssign, ast.AnnAssign)) and a.value is not None:
+                            tg = a.targets if isinstance(a, ast.Assign) else [a.target]
+                            if any(isinstance(x, ast.Name) and x.id == nm for t in tg for x in ast.walk(t)):
+                                exprs.append(a.value)
+                                nxt |= {x.id for x in ast.walk(a.value) if isinstance(x, ast.Name)}
+                frontier = nxt
+            bad = sorted({x.func.attr for e in exprs for x in ast.walk(e) if isinstance(x, ast.Call) and isinstance(x.func, ast.Attribute) and x.func.attr in REWRITE and not (k.arg == "content" and x.func.attr == "join")})
+            if k.arg != "info_tag":
+                bad += sorted({"strip" for e in exprs for x in ast.walk(e) if isinstance(x, ast.Call) and isinstance(x.func, ast.Attribute) and x.func.attr == "strip"})
+            run.instance(rule, pm.loc(c), f"parse_literal_zone: {k.arg} <- `{norm(k.value)[:40]}` built without a rewriting call", ok=not bad)
+            if bad:
+                run.violation(rule, pm, fi.qualname, f"LiteralZoneValue({k.arg}=...)", f"the zone's {k.arg} passes through {', '.join(bad)}() on its way into the LiteralZoneValue: the {('info tag' if k.arg == 'info_tag' else k.arg)} that parse / canonicalise / write hand on is not the text between the fences as written (only surrounding blanks of the info tag may go)")
+
+
 def check(run: Run) -> None:
     p = run.project
     scope = [p.mod(s) for s in SCOPE_QUICK] if run.tier == "quick" else list(p.modules.values())
@@ -616,4 +652,5 @@ def check(run: Run) -> None:
     check_layout_siblings(run)
     check_prelex_text(run, "R05.8")
     check_fence_recognition(run)
+    check_zone_construction(run)
     run.assume("byte equality of zone content through a whole pipeline, and the collapse of a zone holding exactly one empty line into an empty zone (a value-level fact of the token representation) are not decided")
